@@ -55,7 +55,7 @@ def mk_cmp(op, l, r):
 
 
 def is_subject(v):
-    return v == "D" or (isinstance(v, tuple) and v and v[0] in ("len", "unique", "set") and is_subject(v[1]))
+    return v == "D" or (isinstance(v, tuple) and v and v[0] in ("len", "len_bytes", "unique", "set") and is_subject(v[1]))
 
 
 class Sym:
@@ -276,8 +276,10 @@ class Sym:
         if isinstance(recv, tuple) and recv and recv[0] == "strns":
             opts = tuple(sorted((k, v[1]) for k, v in kwargs.items() if isinstance(v, tuple) and v[0] == "const" and k != "pattern"))
             pat = kwargs.get("pattern", args[0] if args else None)
-            if m in ("len", "len_chars") and not args:
+            if m in ("len", "len_chars", "n_chars") and not args:
                 return ("len", recv[1])
+            if m in ("len_bytes", "n_bytes") and not args:
+                return ("len_bytes", recv[1])   # byte length: a different quantity for non-ASCII text
             if m == "match":
                 return ("str", "match", self.patform(pat), opts)
             if m == "contains":
@@ -389,8 +391,8 @@ def show(p) -> str:
             return f"~({show(p[1])})"
         if p[0] == "param":
             return p[1]
-        if p[0] == "len":
-            return f"len({show(p[1])})"
+        if p[0] in ("len", "len_bytes"):
+            return f"{p[0]}({show(p[1])})"
         if p[0] == "isin":
             return f"{show(p[1])} in {show(p[2])}"
         if p[0] == "RAISE":
